@@ -15,7 +15,7 @@ judge: the spec predicates of Spec/ValueTables (exact shares, ±1 on the 10000 s
 -/
 namespace PolyVerif.Driver.C18
 open PolyVerif PolyVerif.Codon PolyVerif.CodonTables
-open PolyVerif.Spec.ValueTables (isSumOf isCompromiseOf sameWeights sameCode WFCode posTotals nonNeg notRare encodable chunks3 pairs reweight)
+open PolyVerif.Spec.ValueTables (isSumOf isCompromiseOf isCompromiseOfP prepPair sameWeights sameCode WFCode posTotals nonNeg notRare encodable chunks3 pairs reweight)
 
 def render (f : List String) : List String :=
   match f with
@@ -56,13 +56,6 @@ def operandOk (src : String) (t : Table) : Bool :=
   | "raw" :: rest => t == parseTable (":".intercalate rest)
   | _ => false
 
-/-- the values `int(10000·c)` can take in float64 for the real number `q = c`: `⌊10000q⌋`, and also the next
-integer when `10000q` is not an integer but within float rounding distance (≤ 2·10⁻¹²; 10⁻⁹ is used) below it -/
-def cutCands (q : Rat) : List Int :=
-  let x := 10000 * q
-  let cw := x.floor
-  if x == (cw : Rat) then [cw] else if ((cw + 1 : Int) : Rat) - x < (1 : Rat) / 1000000000 then [cw, cw + 1] else [cw]
-
 structure CutVerdict where
   corr : Bool
   pass : Bool
@@ -71,15 +64,15 @@ structure CutVerdict where
   detail : String
 
 /-- the Optimize clause on the real codon.Optimize reply `oopt` for protein `p` and compromise table `r12` -/
-def optimizeOk (cws : List Int) (t1 t2 r12 : Table) (p : Str) (oopt : String) : Bool :=
+def optimizeOk (q : Rat) (t1 t2 r12 : Table) (p : Str) (oopt : String) : Bool :=
   let canEncode := p.all fun aa => encodable r12 [aa]
   if oopt.startsWith "S" then
     let cs := chunks3 (oopt.drop 1).toString.toList
     canEncode && cs.length == p.length && (oopt.length - 1) == 3 * p.length &&
-      (p.zip cs).all fun ac => (pairs t1).contains ([ac.1], ac.2) && notRare cws t1 t2 [ac.1] ac.2
+      (p.zip cs).all fun ac => (pairs t1).contains ([ac.1], ac.2) && decide (Spec.ValueTables.weightAt r12 [ac.1] ac.2 > 0) && notRare q t1 t2 [ac.1] ac.2
   else oopt == "err" && !canEncode     -- an error is right only when some residue has no eligible codon
 
-def judgeCut (t1 t2 : Table) (inDom : Bool) (protein : Str) (bits : String) (o12 o21 oopt : String) : CutVerdict :=
+def judgeCut (t1 t2 : Table) (P12 P21 : List Spec.ValueTables.PrepCodon) (inDom : Bool) (protein : Str) (bits : String) (o12 o21 oopt : String) : CutVerdict :=
   let c := Float.ofBits (UInt64.ofNat (natOfStr bits))
   let m12 := resOfOutcome (compromise floatArith t1 t2 c)
   let m21 := resOfOutcome (compromise floatArith t2 t1 c)
@@ -96,11 +89,10 @@ def judgeCut (t1 t2 : Table) (inDom : Bool) (protein : Str) (bits : String) (o12
       if outOfRange then i12 == .err && i21 == .err          -- compromise_rejects: whatever the tables
       else if !inDom then true
       else
-        let cws := cutCands q
         match i12, i21 with
         | .table r12, .table r21 =>
-          isCompromiseOf cws t1 t2 r12 && isCompromiseOf cws t2 t1 r21 && sameWeights r12 r21 &&
-          optimizeOk cws t1 t2 r12 protein oopt
+          isCompromiseOfP q P12 t1 r12 && isCompromiseOfP q P21 t2 r21 && sameWeights r12 r21 &&
+          optimizeOk q t1 t2 r12 protein oopt
         | _, _ => false
     { corr, pass, inRange := !outOfRange,
       tag := (if q < 0 then "neg" else if q > 1 then "big" else if q == 0 then "zero" else if q == 1 then "one" else "mid") ++ fx
@@ -130,13 +122,17 @@ def judge (f out : List String) : Verdict :=
       let addPass := !inDom || (match ia12, ia21 with
         | .table r12, .table r21 => isSumOf t1 t2 r12 && isSumOf t2 t1 r21 && sameWeights r12 r21
         | _, _ => false)
-      let cvs := (cutl.zip (triples rest)).map fun p => judgeCut t1 t2 inDom protein.toList p.1 p.2.1 p.2.2.1 p.2.2.2
+      let P12 := prepPair t1 t2
+      let P21 := prepPair t2 t1
+      let cvs := (cutl.zip (triples rest)).map fun p => judgeCut t1 t2 P12 P21 inDom protein.toList p.1 p.2.1 p.2.2.1 p.2.2.2
       let corr := shapeOk && opsOk && addCorr && cvs.all (·.corr)
-      let pass := shapeOk && addPass && cvs.all (·.pass)
+      let pass := shapeOk && opsOk && addPass && cvs.all (·.pass)
       -- a pair outside the property's quantifier is judged only when ALL its cut-offs are out of range
       -- (the rejection clause holds for any tables); otherwise it is correspondence drift only
       let rejectOnly := cvs.all fun v => !v.inRange
-      let judged := inDom || rejectOnly
+      -- an operand that is not the re-weighted regenerated table (resp. the literal given) is a failure of the case
+      -- whatever domain the wrong operand falls into
+      let judged := inDom || rejectOnly || !opsOk
       let nanTag := if !posTotals t1 || !posTotals t2 then "/nan" else ""
       let difId := match s1.splitOn ":", s2.splitOn ":" with
         | "id" :: a :: _, "id" :: b :: _ => if a == b then "/same-id" else "/ids-" ++ a ++ "-" ++ b
